@@ -5,6 +5,7 @@ import WhVerif.Lemmas.C15Solve
 import WhVerif.Lemmas.C15Writer
 import WhVerif.Lemmas.C15Bps
 import WhVerif.Lemmas.C15Assign
+import WhVerif.Lemmas.C15Deep
 /-!
 # C15 — polyphase output obeys the input genotypes and forms contiguous blocks
 
@@ -605,5 +606,209 @@ theorem optimal_assignments_are_permutations (ploidy : Nat) (choices : List (Lis
   | cons p ps ih => simp [assignmentsFrom, ih]
 
 example : optimalAssignments 4 [[2, 0], [3, 1, 0]] = [[0, 1, 2, 3], [2, 1, 0, 3], [2, 1, 3, 0]] := by decide
+
+/-! ## round 10: sub-instances (`find_subinstances`, `integrate_sub_results`), haploid sets, stage order -/
+
+/-- `find_subinstances`, for every thread matrix, haplotype columns and read distribution (`hasReads`): each
+sub-instance is a cluster with a non-empty, strictly increasing list of positions inside the block and, at every one of
+them, exactly the threads that run through the cluster (≥ 1, duplicate-free, inside the ploidy of the row) carrying
+≥ 2 different alleles; and two sub-instances never share a cell (position, haplotype) — the write-backs of
+`integrate_sub_results` touch pairwise disjoint cells. -/
+theorem subinstances_disjoint_and_inside_block (hasReads : SubInst → Bool) (ploidy : Nat)
+    (threads : List (List Nat)) (cols : List (List Allele)) :
+    (∀ s ∈ findSubinstances hasReads ploidy threads cols,
+      s.snps ≠ [] ∧ s.snps.Pairwise (· < ·) ∧ s.ts ≠ [] ∧ s.ts.Nodup ∧
+      ∀ p ∈ s.snps, p < threads.length ∧
+        (∀ t, t ∈ s.ts ↔ t < (threads.getD p []).length ∧ (threads.getD p []).getD t 0 = s.cid) ∧
+        isHetOn s.ts (cols.getD p []) = true) ∧
+    (findSubinstances hasReads ploidy threads cols).Pairwise
+      (fun a b => ∀ p, p ∈ a.snps → p ∈ b.snps → ∀ t, t ∈ a.ts → t ∉ b.ts) := by
+  constructor
+  · intro s hs
+    have hm : s ∈ findCollapsed threads cols := (List.mem_filter.mp hs).1
+    obtain ⟨hne, hok⟩ := findCollapsed_mem threads cols s hm
+    obtain ⟨p0, hp0⟩ := List.exists_mem_of_ne_nil _ hne
+    have h0 := hok p0 hp0
+    refine ⟨hne, findCollapsed_snps_sorted threads cols s hm, h0.2.2.1, ?_, ?_⟩
+    · rw [h0.2.1]; exact threadSet_nodup _ _
+    · intro p hp
+      have h := hok p hp
+      refine ⟨h.1, ?_, h.2.2.2⟩
+      intro t
+      rw [h.2.1]
+      exact mem_threadSet
+  · exact (findCollapsed_pairwise threads cols).filter _
+
+example : findSubinstances (fun _ => true) 3 [[0, 0, 1], [0, 0, 1], [0, 2, 2], [0, 2, 2]]
+      [[0, 1, 1], [1, 0, 0], [1, 0, 1], [0, 1, 0]] = [⟨0, [0, 1], [0, 1]⟩, ⟨2, [1, 2], [2, 3]⟩] := by decide
+
+/-- The haplotype part of `integrate_sub_results`: for sub-instances that write pairwise disjoint cells inside the
+matrix (what `find_subinstances` returns: previous theorem) and ANY sub-results that obey the sub-instances'
+genotypes (each result column is a rearrangement of the alleles the thread set carried at that position — the
+`subgeno` handed to the recursive solve), the write-back keeps every column's allele multiset: every column of the
+result is a rearrangement of the same column before.  Hence a column that listed the input genotype still does. -/
+theorem integrate_preserves_genotype_multiset (cols : List (List Allele))
+    (pairs : List (SubInst × List (List Allele)))
+    (hdisj : (pairs.map (·.1)).Pairwise (fun a b => ∀ p, p ∈ a.snps → p ∈ b.snps → ∀ t, t ∈ a.ts → t ∉ b.ts))
+    (hok : ∀ sr ∈ pairs, sr.1.snps.Nodup ∧ sr.1.ts.Nodup ∧ sr.2.length = sr.1.snps.length ∧
+      (∀ p ∈ sr.1.snps, p < cols.length ∧ ∀ t ∈ sr.1.ts, t < (cols.getD p []).length) ∧
+      ∀ pr ∈ sr.1.snps.zip sr.2, pr.2.Perm (extractPerm sr.1.ts (cols.getD pr.1 [])))
+    (gts : List (List Allele)) :
+    (integrateHaps cols pairs).length = cols.length ∧
+    (∀ p, ((integrateHaps cols pairs).getD p []).Perm (cols.getD p [])) ∧
+    (∀ p, (cols.getD p []).Perm (gts.getD p []) → ((integrateHaps cols pairs).getD p []).Perm (gts.getD p [])) := by
+  have h := integrateHaps_good (fun _ => False) badOk_false cols pairs cols hdisj
+    (fun sr hsr => by
+      obtain ⟨a, b, c, d, e⟩ := hok sr hsr
+      refine ⟨a, b, c, d, fun pr hpr => ⟨?_, Or.inr (e pr hpr)⟩⟩
+      have := (e pr hpr).length_eq
+      simpa [extractPerm] using this)
+    rfl (fun _ => rfl) (fun _ _ _ _ => rfl) (fun _ => Or.inr (List.Perm.refl _))
+  have hperm : ∀ p, ((integrateHaps cols pairs).getD p []).Perm (cols.getD p []) := fun p => by
+    rcases h.2 p with hf | hp
+    · exact hf.elim
+    · exact hp
+  exact ⟨h.1, hperm, fun p hg => (hperm p).trans hg⟩
+
+/-- non-vacuity: two sub-instances on disjoint cells, results that swap the alleles -/
+example : integrateHaps [[0, 1, 1], [1, 0, 0], [1, 0, 1]] [(⟨0, [0, 1], [0, 1]⟩, [[1, 0], [0, 1]]), (⟨2, [1, 2], [2]⟩, [[1, 0]])]
+    = [[1, 0, 1], [0, 1, 0], [1, 1, 0]] := by decide
+
+/-- The HS value the (repaired) writer leaves in a call is never empty (F24 cannot return): it is absent, `.`, or
+`ploidy ≥ 1` identifiers, each ≥ 1 (position + 1); the writer as coded before 202db3e did leave an empty value. -/
+theorem hs_value_wellformed (ploidy : Nat) (inFormat phasedNow : Bool) (hc : Option (List Nat)) :
+    hsOfCall true ploidy inFormat phasedNow hc ≠ .empty ∧
+    (∀ l, hsOfCall true ploidy inFormat phasedNow hc = .values l → l ≠ [] ∧ l.length = ploidy ∧ ∀ v ∈ l, 1 ≤ v) ∧
+    (inFormat = true → hsOfCall true ploidy inFormat phasedNow hc ≠ .absent) := by
+  unfold hsOfCall
+  cases phasedNow <;> cases hc <;> cases inFormat <;> simp
+  all_goals
+    rename_i l
+    by_cases h1 : l.length = ploidy <;> by_cases h2 : l = [] <;> simp [h1, h2]
+    all_goals try (intro l' hl'; subst hl'; simp [h1, h2]; omega)
+
+example : hsOfCall false 2 true false none = .empty ∧ hsOfCall true 2 true false none = .missing ∧
+    hsOfCall true 2 true true (some [10, 27]) = .values [11, 28] := by decide
+
+/- FULL statements asked for (round 10), not proved / not true:
+   `haploid_sets_are_intervals_per_haplotype`: for `(cuts, hap_cuts) = computeCutPositions A bps ploidy B` (first
+   breakpoint at 0 with zero confidence, sorted positions, duplicate-free haplotype lists) every `hap_cuts[j]` starts
+   with 0, is strictly increasing and a sub-list of `cuts`.  Missing: the invariant of `cutLoop` on `hapCutsRev`
+   (`addHapCuts` prepends the position to the listed haplotypes only); the hypotheses below are checked as an oracle on
+   every run (`hapcuts-wellformed`).
+   `haploid_sets_refine_phase_sets` ("every HS interval lies inside one PS block") is FALSE for the code: a cut made
+   at a breakpoint of non-zero confidence enters `hap_cuts[h]` only for `h in b.haplotypes`, the haploid sets of the
+   other haplotypes run across that phase-set border (witness below).  What holds is the converse: every haploid
+   border is a phase-set border, so each PS block lies inside one HS interval of every haplotype. -/
+
+/-- Haploid sets, per haplotype: the entry `j` of `haploid_components[key]` is the value the loop over
+`hap_cuts[j] + [num_vars]` wrote (the same writes as for the phase sets, with `hap_cuts[j]` for `cuts`), 0 if it wrote
+none; and for every haplotype cut list that starts with 0, is strictly increasing and inside the accessible
+positions, the value at accessible position `p` is the accessible position at the greatest haploid cut `≤ p`: per
+haplotype the haploid sets are disjoint intervals in the order of the accessible positions, named by their first. -/
+theorem haploid_sets_are_intervals_per_haplotype_partial (acc : List Nat) (hacc : acc.Pairwise (fun a b => a < b))
+    (cuts : List Nat) (hapCuts : List (List Nat)) :
+    (∀ key l, haploidDict acc acc.length cuts hapCuts key = some l →
+      dictGet (componentWrites acc acc.length cuts) key ≠ none ∧ l.length = hapCuts.length ∧
+      l = hapCuts.map (fun hc => (dictGet (componentWrites acc acc.length hc) key).getD 0)) ∧
+    ∀ hc ∈ hapCuts, ∀ rest, hc = 0 :: rest → hc.Pairwise (fun a b => a < b) → (∀ c ∈ hc, c < acc.length) →
+      ∀ p, p < acc.length → ∃ c ∈ hc, c ≤ p ∧ (∀ c' ∈ hc, c' ≤ p → c' ≤ c) ∧
+        dictGet (componentWrites acc acc.length hc) (acc.getD p 0) = some (acc.getD c 0) := by
+  constructor
+  · intro key l h
+    unfold haploidDict at h
+    cases hd : dictGet (componentWrites acc acc.length cuts) key with
+    | none => rw [hd] at h; simp at h
+    | some v =>
+      rw [hd] at h
+      have : l = hapCuts.map (fun hc => (dictGet (componentWrites acc acc.length hc) key).getD 0) := by
+        simpa using h.symm
+      exact ⟨by simp, by rw [this]; simp, this⟩
+  · intro hc _ rest he hpw hcr p hp
+    have hm : ∀ i j, i < j → j < acc.length → acc.getD i 0 < acc.getD j 0 := by
+      intro i j hij hj
+      have := List.pairwise_iff_getElem.mp hacc i j (by omega) hj hij
+      simpa [List.getD_eq_getElem?_getD, hj, (by omega : i < acc.length)] using this
+    subst he
+    exact (componentWrites_lookup acc acc.length hm rest 0 hpw hcr).1 p (by omega) hp
+
+/-- The part of "haploid sets refine phase sets" that holds: when every haploid cut of haplotype `j` is a phase-set cut
+(`hap_cuts[j]` ⊆ `cuts`, both starting at 0 and strictly increasing), two accessible positions in the same phase set
+are in the same haploid set of `j` — a PS block lies inside one HS interval; HS identifiers are accessible positions
+of cuts (named by the first position of the interval). -/
+theorem haploid_sets_refine_phase_sets_partial (acc : List Nat) (hacc : acc.Pairwise (fun a b => a < b))
+    (rest restj : List Nat) (hpw : (0 :: rest).Pairwise (fun a b => a < b)) (hpwj : (0 :: restj).Pairwise (fun a b => a < b))
+    (hr : ∀ c ∈ 0 :: rest, c < acc.length) (hsub : ∀ c ∈ 0 :: restj, c ∈ 0 :: rest)
+    (p q : Nat) (hp : p < acc.length) (hq : q < acc.length)
+    (hsame : dictGet (componentWrites acc acc.length (0 :: rest)) (acc.getD p 0) =
+             dictGet (componentWrites acc acc.length (0 :: rest)) (acc.getD q 0)) :
+    dictGet (componentWrites acc acc.length (0 :: restj)) (acc.getD p 0) =
+      dictGet (componentWrites acc acc.length (0 :: restj)) (acc.getD q 0) := by
+  have hm : ∀ i j, i < j → j < acc.length → acc.getD i 0 < acc.getD j 0 := by
+    intro i j hij hj
+    have := List.pairwise_iff_getElem.mp hacc i j (by omega) hj hij
+    simpa [List.getD_eq_getElem?_getD, hj, (by omega : i < acc.length)] using this
+  have hinj : ∀ i j, i < acc.length → j < acc.length → acc.getD i 0 = acc.getD j 0 → i = j := by
+    intro i j hi hj e
+    rcases Nat.lt_trichotomy i j with h | h | h
+    · have := hm i j h hj; omega
+    · exact h
+    · have := hm j i h hi; omega
+  have hrj : ∀ c ∈ 0 :: restj, c < acc.length := fun c hc => hr c (hsub c hc)
+  obtain ⟨c1, hc1, hc1p, hc1m, e1⟩ := (componentWrites_lookup acc acc.length hm rest 0 hpw hr).1 p (by omega) hp
+  obtain ⟨c2, hc2, hc2q, hc2m, e2⟩ := (componentWrites_lookup acc acc.length hm rest 0 hpw hr).1 q (by omega) hq
+  obtain ⟨d1, hd1, hd1p, hd1m, f1⟩ := (componentWrites_lookup acc acc.length hm restj 0 hpwj hrj).1 p (by omega) hp
+  obtain ⟨d2, hd2, hd2q, hd2m, f2⟩ := (componentWrites_lookup acc acc.length hm restj 0 hpwj hrj).1 q (by omega) hq
+  rw [e1, e2] at hsame
+  have hc : c1 = c2 := hinj c1 c2 (hr c1 hc1) (hr c2 hc2) (Option.some.inj hsame)
+  -- the greatest haploid cut below p and below q coincide: each is a phase-set cut ≤ c1 = c2
+  have h1 : d1 ≤ c1 := hc1m d1 (hsub d1 hd1) hd1p
+  have h2 : d2 ≤ c2 := hc2m d2 (hsub d2 hd2) hd2q
+  have h3 : d2 ≤ d1 := hd1m d2 hd2 (by omega)
+  have h4 : d1 ≤ d2 := hd2m d1 hd1 (by omega)
+  rw [f1, f2, Nat.le_antisymm h4 h3]
+
+/-- witness that the converse fails for the code: ploidy 2, sensitivity 5, second breakpoint `(1, [0], 0.5)` cuts the
+phase set but only haplotype 0: the haploid set of haplotype 1 named 10 spans both phase sets -/
+example :
+    let r := computeCutPositions exArith [⟨0, [0, 1], 0⟩, ⟨1, [0], 5⟩] 2 5
+    r = ([0, 1], [[0, 1], [0]]) ∧
+    haploidDict [10, 20] 2 r.1 r.2 10 = some [10, 10] ∧ haploidDict [10, 20] 2 r.1 r.2 20 = some [20, 10] ∧
+    dictGet (componentWrites [10, 20] 2 r.1) 10 = some 10 ∧ dictGet (componentWrites [10, 20] 2 r.1) 20 = some 20 := by
+  decide
+
+/- FULL statement asked for (round 10): for `solveInstance H fuel k gl` (the functional stage order of
+   `solve_polyphase_instance` / `phase_single_block` in `Model/C15Deep.lean`, every heuristic a field of `H`), for
+   every `H` whose `thread` returns `len(gl)` rows/columns of `k` entries and whose `labels` has one label per column,
+   every column `i` of the result has an undetermined allele or is a rearrangement of `gl[i]`.  Proved below: the
+   statement per column for one level of the recursion, with the sub-instance write-backs given by the relation
+   `SubSteps` (whose side conditions are now theorems: `subinstances_disjoint_and_inside_block`,
+   `integrate_preserves_genotype_multiset`).  Missing: the induction over `fuel` through the matrix-level functions
+   (`List.zipWith forceCol`, `integrateHaps` column by column = `SubSteps`, the block slices), i.e. that column `p` of
+   `phaseBlock` is `permuteCol (sanPerm …) (column p of integrateHaps …)`. -/
+
+/-- **Stage order with arbitrary heuristics, one column.**  Threading (`col0`: any column of `ploidy` alleles) →
+`force_genotypes` with ANY likelihood `pick` → write-backs of recursively solved sub-instances → `permute_blocks` with
+ANY assignment `perm` (`sanPerm`: an assignment is one-to-one): the result is a column `solve_polyphase_instance` can
+return (`SolvedN`), so it has an undetermined allele or lists exactly the genotype — no property of `pick`, `perm`,
+`col0` is used. -/
+theorem pipeline_obeys_genotypes_for_any_heuristic_partial
+    (pick : List Allele → List Allele → List Nat → List Allele → List Allele) (perm : List Nat)
+    (col0 gv : List Allele) (hlen : col0.length = gv.length) (n : Nat) (col2 : List Allele)
+    (hsub : SubSteps (SolvedN n) (forceCol pick col0 gv) [] (forceCol pick col0 gv) col2) :
+    SolvedN (n + 1) gv (permuteCol (sanPerm gv.length perm) col2) ∧
+    ((-1 : Allele) ∉ permuteCol (sanPerm gv.length perm) col2 →
+      (permuteCol (sanPerm gv.length perm) col2).Perm gv) := by
+  have hs : SolvedN (n + 1) gv (permuteCol (sanPerm gv.length perm) col2) := by
+    simp only [SolvedN]
+    exact Or.inr ⟨col0, forceCol pick col0 gv, col2, sanPerm gv.length perm, hlen, forceCol_forceOut pick col0 gv, hsub,
+      sanPerm_perm _ _, rfl⟩
+  exact ⟨hs, fun hdet => solved_column_obeys_genotype (n + 1) gv _ hs hdet⟩
+
+/-- non-vacuity: a likelihood that answers nonsense, an assignment that is none -/
+example : forceCol (fun _ _ _ _ => [7, 7, 7]) [0, 0, 0, 2] [0, 1, 1, 2] = [0, 1, 1, 2] ∧ sanPerm 3 [0, 0, 1] = [0, 1, 2] ∧
+    forceCol (fun _ _ _ ins => ins.reverse) [0, 0, 0, 2] [0, 1, 1, 2] = [1, 1, 0, 2] := by
+  refine ⟨?_, by decide, ?_⟩ <;> simp [forceCol, forceStep, affected, idxFrom, abundant, toInsert, alleles, dedup, insertFor,
+    List.mergeSort, assign, List.isPerm]
 
 end WhVerif.Props.C15
